@@ -65,8 +65,10 @@ def run_history(case):
             ids_before = O.ids_of(m) if check else None
         ans = None
         out = "ok"
+        entry = None
         if op[0] == "q":
             ans = O.run_query(m, op)
+            entry = O.LAST_ENTRY[0]
         elif op[0] == "fork":
             old = m
             if len(op) > 1 and op[1] == "pickle":
@@ -100,6 +102,8 @@ def run_history(case):
                 out = type(e).__name__
         r = {"out": out, "ids": O.ids_of(m), "keys": O.keylists(m), "ans": ans, "changed": False,
              "effect": "as documented"}
+        if op[0] == "q":
+            r["entry"] = entry  # the public method the query reached first (Lean: `Query.entry`)
         s = None
         if check:
             try:
@@ -202,6 +206,7 @@ def model_histories(cases):
             if q[0] == "q":
                 # what `freshAnswer` (the right-hand side of C03_fresh_equiv) says; compared with the real fresh model
                 ob["fresh"] = _canon_q(o.get("fresh"), q)
+                ob["entry"] = o.get("entry")
             if "rebuilt" in o:
                 # the Lean model built from scratch by `rebuild` (C03_refines_fresh); compared with the real fresh model
                 ob["rebuilt"] = {"ids": sorted(o["rebuilt"]["ids"]), "keys": o["rebuilt"]["keys"],
@@ -457,6 +462,16 @@ def setup(ctx):
 
     ctx.translate(T.generate)
     ctx.build(PROPS)
+    if ctx.driver_ok:
+        # the Lean lists (mutators from the generated table, `modelledEntries`, `outOfScope`) against the harness' own
+        try:
+            L = driver.call_batch([{"op": "c03", "lists": True}])[0]
+            lean = (set(L["modelled"]) - {"__eq__"}) | set(L["out"]) | set(L["mutators"])
+            if lean != O.KNOWN_PUBLIC or set(L["modelled"]) & set(L["out"]):
+                ctx.add_drift({"lists": "public surface"}, sorted(O.KNOWN_PUBLIC ^ lean), sorted(set(L["modelled"]) & set(L["out"])),
+                              "harness KNOWN_PUBLIC vs Lean mutators + modelledEntries + outOfScope")
+        except Exception as e:  # noqa: BLE001
+            ctx.notes.append(f"surface lists not comparable: {e!r}"[:200])
     ctx.rule = (
         "op histories over all 30 public Model mutators (valid and invalid arguments, keyword / object variants, "
         "functions with stated signatures) and 35 query forms, deep copies; distinct = "
